@@ -100,7 +100,7 @@ def r16_4_id_stability(repo: Repo, rep: Report):
             ok = ex is not None and src(ex) == "ex" and "_solve_end_to_end_callback" in src(p.args[0])
     rep.check("R16.4", ok, m, cbs[0] if cbs else hv, src(cbs[0])[:140] if cbs else "add_done_callback(partial(..., ex=ex, ...))", "the path's Exec must be retained by the future's callback (otherwise its term ids can be recycled while cores naming them are cached)")
     apps = [c for c in method_calls(hv, "append") if "submitted_futures" in dotted(c.func)]
-    ok = len(apps) == 1 and src(apps[0].args[0]) == "solve_future" and not guard_set(m, apps[0])
+    ok = len(apps) == 1 and src(apps[0].args[0]) == "solve_future" and not guard_set(m, apps[0], silent=True)
     rep.check("R16.4", ok, m, apps[0] if apps else hv, src(apps[0]) if apps else "self.submitted_futures.append(solve_future)", "submitted futures must be retained for the life of the test")
     sf = [s for s in body_walk(hv) if isinstance(s, ast.Assign) and src(s.targets[0]) == "solve_future"]
     ok = len(sf) == 1 and src(sf[0].value) == "ctx.thread_pool.submit(solve_end_to_end, path_ctx)"
